@@ -50,12 +50,17 @@ pub fn sections(ctx: &Ctx) -> Vec<(&'static str, u64)> {
     v.push(("w3-total", w3));
     v.push(("scaling", SCALING_FAMILIES.len() as u64 * 3));
     v.push(("snippet-tokens", w5));
+    v.push(("w2-tokens", W2_TOKEN_PROGRAMS));
     v
 }
 
+/// Number of generated programs (from the constant universe seed) whose tokens are lost,
+/// duplicated and swapped on a lattice of positions
+const W2_TOKEN_PROGRAMS: u64 = 120;
+
 /// E5 at token granularity on the snippets of the repository's own tests: every token lost,
 /// duplicated, or exchanged with its successor (a fixed, seed-independent universe)
-fn token_faults(src: &str) -> Vec<(String, String)> {
+pub fn token_faults(src: &str) -> Vec<(String, String)> {
     // units: words, punctuation characters, whitespace runs, quoted strings
     let chars: Vec<char> = src.chars().collect();
     let mut units: Vec<String> = Vec::new();
@@ -549,6 +554,32 @@ pub fn cases(ctx: &Ctx, section: &str, i: u64) -> Vec<Case> {
                     c.params = crate::json::Json::obj().with("baked_fault", crate::json::Json::Bool(true));
                     out.push(c);
                 }
+            }
+            out
+        }
+        "w2-tokens" => {
+            // the programs come from the constant universe seed, not from VERIF_SEED
+            let mut ur = Rng::new(UNIVERSE_SEED).sub_n("w2-tokens", i);
+            let (label, fs, task) = crate::w2::scenario(&mut ur, i);
+            let src = fs.files.values().next().cloned().unwrap_or_default();
+            let stride = if ctx.tier == Tier::Quick { 30 } else { 1 };
+            let residue = ctx.rng().sub("w2-tokens").sub_n("residue", i).below(stride);
+            let mut out = Vec::new();
+            for (n, (what, text)) in token_faults(&src).into_iter().enumerate() {
+                let n = n as u64;
+                // lattice: every third token position (three faults per position)
+                if (n / 3) % 3 != i % 3 || (n / 9) % stride != residue {
+                    continue;
+                }
+                let mut c = total_case(
+                    &format!("{label} {what}"),
+                    snippet_fs(&text),
+                    task.clone(),
+                    key(&mut rng),
+                    STACK_MAIN,
+                );
+                c.params = crate::json::Json::obj().with("baked_fault", crate::json::Json::Bool(true));
+                out.push(c);
             }
             out
         }
